@@ -66,10 +66,10 @@ func runC07(c *Ctx) {
 				}
 			}
 		case "Limit":
-			limitExpr = types.ExprString(call.Args[0])
+			limitExpr = canonExpr(call.Args[0])
 			if be, ok := ast.Unparen(call.Args[0]).(*ast.BinaryExpr); ok && be.Op == token.ADD {
 				if one, ok := be.Y.(*ast.BasicLit); ok && one.Value == "1" {
-					limitBase = types.ExprString(be.X)
+					limitBase = canonExpr(be.X)
 				}
 			}
 		}
@@ -83,7 +83,7 @@ func runC07(c *Ctx) {
 			if a.Cmp == ">" || a.Cmp == ">=" || a.Cmp == "<" || a.Cmp == "<=" {
 				cursorCol, cursorOp = core.BaseColumn(a.Left), a.Cmp
 				if a.Right == "?" && a.QIdx < len(wf.Args) {
-					cursorArg = types.ExprString(wf.Args[a.QIdx])
+					cursorArg = canonExpr(wf.Args[a.QIdx])
 				}
 			}
 		}
@@ -123,20 +123,20 @@ func runC07(c *Ctx) {
 										if se, ok := n3.(*ast.SelectorExpr); ok {
 											if ix, ok := se.X.(*ast.IndexExpr); ok {
 												tokenField = se.Sel.Name
-												tokenIndex = types.ExprString(ix.Index)
+												tokenIndex = canonExpr(ix.Index)
 											}
 										}
 										return true
 									})
 								} else if sl, ok := as.Rhs[i].(*ast.SliceExpr); ok {
-									truncExpr = types.ExprString(sl)
+									truncExpr = canonExpr(sl)
 								}
 							}
 						}
 						return true
 					})
 					if hasTok {
-						hasMoreBase = types.ExprString(be.Y)
+						hasMoreBase = canonExpr(be.Y)
 					}
 				}
 			}
@@ -211,7 +211,7 @@ func runC07(c *Ctx) {
 				if a.Op == "atom" && (a.Cmp == ">" || a.Cmp == ">=") {
 					cur, op = core.BaseColumn(a.Left), a.Cmp
 					if a.Right == "?" {
-						arg = types.ExprString(smp.Args[a.QIdx])
+						arg = canonExpr(smp.Args[a.QIdx])
 					}
 				}
 			}
@@ -230,7 +230,7 @@ func runC07(c *Ctx) {
 			}
 			limArg := ""
 			if st.Limit != nil && st.Limit.Kind == "?" {
-				limArg = types.ExprString(smp.Args[st.Limit.QIdx])
+				limArg = canonExpr(smp.Args[st.Limit.QIdx])
 			} else {
 				bad = append(bad, "LIMIT is not a bound placeholder")
 			}
@@ -243,14 +243,14 @@ func runC07(c *Ctx) {
 					if !ok {
 						return true
 					}
-					cond := strings.ReplaceAll(types.ExprString(ifs.Cond), " ", "")
+					cond := strings.ReplaceAll(canonExpr(ifs.Cond), " ", "")
 					if cond != "len(rows)=="+limArg {
 						return true
 					}
 					for _, s := range ifs.Body.List {
 						if as, ok := s.(*ast.AssignStmt); ok && len(as.Lhs) == 1 {
-							rhs := strings.ReplaceAll(types.ExprString(as.Rhs[0]), " ", "")
-							if types.ExprString(as.Lhs[0]) == arg && (rhs == "rows["+limArg+"-1].ID" || rhs == "rows[len(rows)-1].ID") {
+							rhs := strings.ReplaceAll(canonExpr(as.Rhs[0]), " ", "")
+							if canonExpr(as.Lhs[0]) == arg && (rhs == "rows["+limArg+"-1].ID" || rhs == "rows[len(rows)-1].ID") {
 								contOK = true
 							}
 						}
@@ -293,7 +293,7 @@ func r071order(c *Ctx, fd *ast.FuncDecl, fname string) {
 			if _, ok := as.Rhs[i].(*ast.SliceExpr); ok {
 				truncPos = as.Pos()
 			}
-			if call, ok := as.Rhs[i].(*ast.CallExpr); ok && strings.Contains(types.ExprString(call.Fun), "encodeNextPageToken") {
+			if call, ok := as.Rhs[i].(*ast.CallExpr); ok && strings.Contains(canonExpr(call.Fun), "encodeNextPageToken") {
 				tokPos = as.Pos()
 			}
 		}
@@ -668,4 +668,56 @@ func r075(c *Ctx, rule string) {
 	if n < 2 {
 		r.Undecide(rule, "", "paginated listing consumers", "", fmt.Sprintf("%d internal consumers of GetRelationTuples found (floor 2: expand, tuple-to-subject-set)", n))
 	}
+}
+
+// canonExpr prints an expression without spaces and without parentheses around
+// atomic operands, so that comparisons between expressions do not depend on
+// formatting or redundant grouping.
+func canonExpr(e ast.Expr) string {
+	atomic := func(x ast.Expr) bool {
+		switch ast.Unparen(x).(type) {
+		case *ast.Ident, *ast.SelectorExpr, *ast.CallExpr, *ast.IndexExpr, *ast.BasicLit, *ast.SliceExpr, *ast.CompositeLit:
+			return true
+		}
+		return false
+	}
+	switch x := e.(type) {
+	case nil:
+		return ""
+	case *ast.ParenExpr:
+		if atomic(x.X) {
+			return canonExpr(ast.Unparen(x.X))
+		}
+		return "(" + canonExpr(ast.Unparen(x.X)) + ")"
+	case *ast.BinaryExpr:
+		return canonExpr(x.X) + x.Op.String() + canonExpr(x.Y)
+	case *ast.UnaryExpr:
+		return x.Op.String() + canonExpr(x.X)
+	case *ast.StarExpr:
+		return "*" + canonExpr(x.X)
+	case *ast.SelectorExpr:
+		return canonExpr(x.X) + "." + x.Sel.Name
+	case *ast.IndexExpr:
+		return canonExpr(x.X) + "[" + canonExpr(ast.Unparen(x.Index)) + "]"
+	case *ast.SliceExpr:
+		s := canonExpr(x.X) + "["
+		if x.Low != nil {
+			s += canonExpr(ast.Unparen(x.Low))
+		}
+		s += ":"
+		if x.High != nil {
+			s += canonExpr(ast.Unparen(x.High))
+		}
+		if x.Slice3 {
+			s += ":" + canonExpr(ast.Unparen(x.Max))
+		}
+		return s + "]"
+	case *ast.CallExpr:
+		var as []string
+		for _, a := range x.Args {
+			as = append(as, canonExpr(ast.Unparen(a)))
+		}
+		return canonExpr(x.Fun) + "(" + strings.Join(as, ",") + ")"
+	}
+	return strings.ReplaceAll(types.ExprString(e), " ", "")
 }
